@@ -293,3 +293,25 @@ def common_scale_dev(out_rows):
                     d = 0.0
                 worst = max(worst, d)
     return worst
+
+
+# ------------------------------------------------------------------ selecting RDMs of a stack
+def select_rows(op, desc, arg):
+    """which RDMs (row numbers, in result order) a selection yields; desc = the rdm descriptor the
+    selection goes by (list, one value per RDM), arg = value / list of values / row numbers.
+      'subset'    rows whose value is (one of) arg, in stack order, each once
+      'subsample' for every value of arg in turn every row that has it (repeats repeat)
+      'getitem'   the row numbers given, as given (a single int = one row)"""
+    many = isinstance(arg, (list, tuple))
+    if op == 'subset':
+        want = list(arg) if many else [arg]
+        return [j for j, d in enumerate(desc) if d in want]
+    if op == 'subsample':
+        out = []
+        for v in (arg if many else [arg]):
+            out += [j for j, d in enumerate(desc) if d == v]
+        return out
+    if op == 'getitem':
+        return [int(i) for i in arg] if many else [int(arg)]
+    raise ValueError(op)
+
